@@ -4,6 +4,7 @@ import (
 	"fmt"
 	"math"
 	"strconv"
+	"strings"
 
 	"verifharness/hx"
 )
@@ -170,7 +171,21 @@ func (g *worldGen) named(name string, subs [][]*Sel, path string) *Outcome {
 		if len(poss) == 0 {
 			return Null()
 		}
-		return g.node(hx.Pick(g.r, poss), subs, path)
+		i := g.r.Intn(len(poss))
+		n := g.node(poss[i], subs, path)
+		if t.Kind == "union" && i+1 < len(poss) && g.r.Chance(2, 3) {
+			// overlapping IsTypeOf: later members accept the value too (a specific type declared before a
+			// catch-all); resolution by declaration order still gives poss[i]
+			for _, m := range poss[i+1:] {
+				if g.r.Chance(1, 2) {
+					n.Also = append(n.Also, m)
+				}
+			}
+			if len(n.Also) == 0 {
+				n.Also = []string{poss[len(poss)-1]}
+			}
+		}
+		return n
 	}
 }
 
@@ -337,6 +352,20 @@ func RandomWorld(r *hx.Rand, s *SchemaDesc, req *Request, op *OpDesc) *Outcome {
 	w := BaseWorld(r, s, req, op)
 	if len(w.Sites) == 0 {
 		return w.Root
+	}
+	if len(req.Focus) > 0 && r.Chance(1, 2) {
+		// a resolver error on one of the fields a generated class points at (Request.Focus)
+		var at []int
+		for i, site := range w.Sites {
+			for _, k := range req.Focus {
+				if site.IsEntry && strings.HasSuffix(site.Path, "."+k) {
+					at = append(at, i)
+				}
+			}
+		}
+		if len(at) > 0 {
+			w.Inject(hx.Pick(r, at), hx.Pick(r, []string{"err", "err", "null"}))
+		}
 	}
 	n := hx.Pick(r, []int{0, 1, 1, 1, 1, 2, 2, 3, 4})
 	for i := 0; i < n; i++ {
